@@ -2946,7 +2946,7 @@ def gen_EngineLife(repo):
     # sizes given to resize / constructors (normalised text), per class
     sizes = []
     for f in algo_files:
-        for v, e in re.findall(r"(?:this->)?(\w+(?:\[\w+\])?)\s*\.\s*resize\s*\(([^;]*)\)\s*;", _cpp(repo, f)):
+        for v, e in re.findall(r"(?:this->)?(\w+(?:\s*\[\w+\])?)\s*\.\s*resize\s*\(([^;]*)\)\s*;", _cpp(repo, f)):
             sizes.append((f, _lf_norm(v), _lf_norm(e)))
     for f in ("SimulationAlgorithm3DBase.hpp",):
         for v, e in re.findall(r"this->(\w+)\s*=\s*std::vector<\w+>\s*\(([^;{}]*)\)\s*;", _cpp(repo, f)):
